@@ -336,5 +336,13 @@ theorem run_R (grow : Nat → Nat) (ops : List Op) : ∀ (s : St) (t : Spec), R 
   | nil => intro s t h; exact h
   | cons op ops ih => intro s t h; exact ih _ _ (step_R grow s t op h)
 
+/-- the writer refines the pending-list specification from its initial state -/
+theorem refines_spec_outs (grow : Nat → Nat) (cap : Nat) (mem0 : Mem) (ops : List Op) :
+    (run grow { w := W.init cap, mem := mem0, outs := [] } ops).outs =
+      (Spec.run { pending := [], mem := mem0, outs := [] } ops).outs := by
+  have h0 : R { w := W.init cap, mem := mem0, outs := [] } { pending := [], mem := mem0, outs := [] } :=
+    ⟨J_init cap, rfl, rfl, fun m => by simp [content, resolve, tailBytes, W.init, specOut]⟩
+  exact (run_R grow ops _ _ h0).outs
+
 end VecWriter
 end Model
